@@ -343,3 +343,60 @@ package task
 //@   on call .WrappedAndFlattened when nwrap == 1 : assert arg1 is *gera.WrapMap[string, string] && arg1.(*gera.WrapMap[string, string]) != nil && arg1.(*gera.WrapMap[string, string]).theMap == localVars && arg1.(*gera.WrapMap[string, string]).parent is *gera.WrapMap[string, string] && arg1.(*gera.WrapMap[string, string]).parent.(*gera.WrapMap[string, string]) != nil && arg1.(*gera.WrapMap[string, string]).parent.(*gera.WrapMap[string, string]).theMap == localDefaults && arg1.(*gera.WrapMap[string, string]).parent.(*gera.WrapMap[string, string]).parent == nil
 //@   on call .WrappedAndFlattened : nwrap = nwrap + 1
 //@   ensures err == nil && wf != nil ==> nwrap == 2
+
+// ---------------------------------------------------------------------------------------------------------
+// C04: killing or cleaning up forgets and kills only the tasks it was handed (which its callers select among the
+// unlocked ones): the roster is pruned by identity against the requested set - first the requested tasks that are not
+// ACTIVE, then all requested tasks - and by nothing else (in particular not by the status of tasks nobody asked about,
+// which may be owned by another environment and only momentarily INACTIVE).
+//@ func (m *Manager) doKillTasks(tasks Tasks) (killed Tasks, running Tasks, err error)
+//@   property C04
+//@   ghostvar nfilt int = 0
+//@   ghostvar inactiveSel Tasks = nil
+//@   ghostvar gotInactive bool = false
+//@   on call (Tasks).Filtered when !gotInactive : assert arg0 == tasks && argfunc1 == "(*core/task.Manager).doKillTasks$1"
+//@   on aftercall (Tasks).Filtered when !gotInactive : inactiveSel = result ; gotInactive = true
+//@   on call (*roster).filtered when nfilt == 0 : assert gotInactive && argfunc1 == "(*core/task.Manager).doKillTasks$2"
+//@   on call (*roster).filtered when nfilt == 1 : assert argfunc1 == "(*core/task.Manager).doKillTasks$3"
+//@   on call (*roster).filtered : assert nfilt < 2 ; nfilt = nfilt + 1
+//@   on call (*Manager).doKillTask : assert nfilt == 2
+
+// requested and not ACTIVE
+//@ closure (*Manager).doKillTasks #1
+//@   property C04
+//@   ensures result == (task.status != ACTIVE)
+
+// keep a rostered task unless a requested non-ACTIVE task has its id
+//@ closure (*Manager).doKillTasks #2
+//@   property C04
+//@   ghostvar consulted bool = false
+//@   ghostvar cres bool = false
+//@   on call (Tasks).Contains : assert arg0 == inactiveTasks && argfunc1 == "(*core/task.Manager).doKillTasks$2$1" && !consulted
+//@   on aftercall (Tasks).Contains : consulted = true ; cres = result
+//@   on return : assert consulted && result == !cres
+//@ closure (*Manager).doKillTasks #2#1
+//@   property C04
+//@   ensures result == (t.taskId == task.taskId)
+
+// keep a rostered task unless a requested task has its id
+//@ closure (*Manager).doKillTasks #3
+//@   property C04
+//@   ghostvar consulted bool = false
+//@   ghostvar cres bool = false
+//@   on call (Tasks).Contains : assert arg0 == tasks && argfunc1 == "(*core/task.Manager).doKillTasks$3$1" && !consulted
+//@   on aftercall (Tasks).Contains : consulted = true ; cres = result
+//@   on return : assert consulted && result == !cres
+//@ closure (*Manager).doKillTasks #3#1
+//@   property C04
+//@   ensures result == (t.taskId == task.taskId)
+
+// Contains: true exactly when the predicate accepted one of the elements
+//@ func (m Tasks) Contains(filter Filter) (has bool)
+//@   property C04
+//@   opt pure-params=filter
+//@   ghostvar any bool = false
+//@   ghostvar n int = 0
+//@   on aftercall <dynamic> : any = any || result ; n = n + 1
+//@   ensures has == any
+//@   ensures !has && m != nil ==> n == len(m)
+//@   loop 1 invariant #i >= -1 && #i < len(m) && !any && !has && n == #i + 1
